@@ -34,6 +34,7 @@ ASSUMPTIONS = [
     "pyproject.toml), a difference between the two command lines rather than between the verdicts of a doctest",
 ]
 NSHARDS = {'quick': 16, 'thorough': 16}
+RULE += (' Directed module variants (one in sixteen each): leftover names after a failure, unittest.SkipTest (finding F36), a module-level pytest.importorskip, order-dependent doctests around a callable that is defined twice; modules written as pkg/__main__.py and setup.py; text files.')
 SHARD_TIMEOUT = {'quick': 1500, 'thorough': 6 * 3600}
 OPTIONS = ['', '', '-ELLIPSIS', '+SKIP', '-NORMALIZE_WHITESPACE', '+IGNORE_WANT']
 
